@@ -108,12 +108,16 @@ Proof. exact drain_count. Qed.
    lazy machine returns exactly o, for every fuel from some bound on.  Together with C08_demand_bound
    (closure counts), C08_late_errors_invisible and C08_source_length_irrelevant (nothing behind the
    demanded prefix matters) this is the statement "model = specification". *)
-(* partial: pipelines of all stages, +, pass-through constructs over numbers/list sources - every
-   constructor except cross and merge (no_cm); missing for the full statement: PCross and PMerge. *)
-Theorem C08_run_refines_spec_partial : forall p t N o, no_cm p ->
+Theorem C08_run_refines_spec : forall p t N o,
   spec_term t (spec_pipe N p) = Some o ->
   exists F, forall fuel, (F <= fuel)%nat -> exists l n, run fuel t p = (l, o, n).
-Proof. exact run_refines_spec_nocm. Qed.
+Proof. exact run_refines_spec. Qed.
+
+(* ... in the form c08_is evaluates it: the result found by the search for the least deciding prefix *)
+Theorem C08_run_refines_spec_need : forall B p t N o,
+  spec_need B t p = Some (N, o) ->
+  exists F, forall fuel, (F <= fuel)%nat -> exists l n, run fuel t p = (l, o, n).
+Proof. exact run_refines_spec_need. Qed.
 
 (* the prefix found by the specification's search (c08_is uses spec_need) decides the result *)
 Theorem C08_spec_need_decides : forall B t p N o,
@@ -252,5 +256,6 @@ Print Assumptions C08_merge_operand_read_ahead_refuted.
 Print Assumptions C08_merge_operand_read_ahead_partial.
 Print Assumptions C08_through_is_identity.
 Print Assumptions C08_through_run.
-Print Assumptions C08_run_refines_spec_partial.
+Print Assumptions C08_run_refines_spec.
+Print Assumptions C08_run_refines_spec_need.
 Print Assumptions C08_spec_need_decides.
